@@ -51,6 +51,7 @@ var shared = map[string][]sharedRule{
 		{[]func(*core.Ctx){C10}, []string{"C10.R8"}, "C02.R18", 2, "a type is generated from the file that declares it (decided by C10.R8): the parse cache is keyed by the opened path and lives for one run"},
 	},
 	"C11": {
+		{[]func(*core.Ctx){C10}, []string{"C10.R13"}, "C11.R24", 2, "a prefix variable that is not an identifier is refused with a diagnostic (decided by C10.R13): the validating regular expression accepts no name that starts with a digit, so no generator emits one as a parameter name"},
 		{[]func(*core.Ctx){C10}, []string{"C10.R8"}, "C11.R23", 2, "valid multi-file IDL is not rejected for a file it never included (decided by C10.R8): the parse cache is keyed by the opened path"},
 	},
 	"C12": {
